@@ -643,7 +643,12 @@ def run_geom_unit(unit, ctx, tmpd):
 
 
 # --------------------------------------------------------------------- clip
-OFFSETS = {"centre": Fraction(0), "minus": Fraction(-1, 4), "plus": Fraction(1, 4)}
+OFFSETS = {"centre": Fraction(0), "minus": Fraction(-1, 4), "plus": Fraction(1, 4),
+           # "ll-edge": the lower-left corner is put exactly on the lower-left cell's own left/bottom edge (half a cell
+           # from its centre), the upper-right corner stays on a centre. Which of the two cells sharing that edge the
+           # implementation starts from is its business (both demands below hold either way), but origin and
+           # data window must agree with each other
+           "ll-edge": Fraction(0)}
 
 
 def exact_centre(xll, yll, csz, nrows, row, col):
@@ -689,10 +694,16 @@ def check_clip(ctx, Grid, case):
     ex0 = exact_centre(xll, yll, csz, nr, r0, c0)
     ex1 = exact_centre(xll, yll, csz, nr, r1, c1)
     pts = [float(ex0[0] + off), float(ex0[1] + off), float(ex1[0] + off), float(ex1[1] + off)]
+    if case["offset"] == "ll-edge":
+        if c0 == 0 or r0 == nr - 1:
+            return                      # the corner would sit on the grid's outer boundary
+        h = Fraction(csz) / 2
+        pts = [float(ex0[0] - h), float(ex0[1] - h), float(ex1[0]), float(ex1[1])]
+        ctx.count("clip.lower_left_corner_on_cell_edge")
     # the float corner points must still be well inside their cells (exact check)
     q = Fraction(csz) * Fraction(3, 8)
     for p, e in zip(pts, [ex0[0], ex0[1], ex1[0], ex1[1]]):
-        if abs(Fraction(p) - e) > q:
+        if case["offset"] != "ll-edge" and abs(Fraction(p) - e) > q:
             ctx.count("unjudged.clip.corner_not_resolvable")
             return
     prefix = "grid.clip"
@@ -781,7 +792,7 @@ def run_clip_unit(unit, ctx):
             for r1 in range(r0 + 1):
                 for c0 in range(nc):
                     for c1 in range(c0, nc):
-                        for off in ("centre", "minus", "plus"):
+                        for off in ("centre", "minus", "plus", "ll-edge"):
                             case = {"kind": "clip", "shape": [nr, nc], "dtype": dtn, "bits": bits,
                                     "nodata": ndbits, "ndkind": ndkind, "geom": list(geom),
                                     "ll": [r0, c0], "ur": [r1, c1], "offset": off}
@@ -1088,9 +1099,15 @@ def check_clip_big(ctx, Grid, case):
     ex0 = exact_centre(xll, yll, csz, nr, r0, c0)
     ex1 = exact_centre(xll, yll, csz, nr, r1, c1)
     pts = [float(ex0[0] + off), float(ex0[1] + off), float(ex1[0] + off), float(ex1[1] + off)]
+    if case["offset"] == "ll-edge":
+        if c0 == 0 or r0 == nr - 1:
+            return
+        h = Fraction(csz) / 2
+        pts = [float(ex0[0] - h), float(ex0[1] - h), float(ex1[0]), float(ex1[1])]
+        ctx.count("clip.lower_left_corner_on_cell_edge")
     q = Fraction(csz) * Fraction(3, 8)
     for p, e in zip(pts, [ex0[0], ex0[1], ex1[0], ex1[1]]):
-        if abs(Fraction(p) - e) > q:
+        if case["offset"] != "ll-edge" and abs(Fraction(p) - e) > q:
             ctx.count("unjudged.clip.corner_not_resolvable")
             return
     prefix = "grid.clip"
@@ -1198,7 +1215,7 @@ def run_clip_ladder_unit(unit, ctx):
             ndkind, ndbits = nds[(gi + k) % len(nds)]
             pattern = PATTERNS[(gi + k) % 2] if gi else "ramp"
             for ll, ur in clip_boxes(nr, nc):
-                for off in ("centre", "minus", "plus"):
+                for off in ("centre", "minus", "plus", "ll-edge"):
                     case = {"kind": "clip-big", "shape": [nr, nc], "dtype": dtn, "pattern": pattern, "nodata": ndbits,
                             "ndkind": ndkind, "geom": list(geom), "ll": list(ll), "ur": list(ur), "offset": off}
                     if first:
